@@ -208,6 +208,9 @@ func ctxOpTemplateRules(r *Run, p *Prog, T *Terms, id func(string) string, dir s
 }
 
 func runC17(r *Run, p *Prog) {
+	// D8: the service's per-connection read returns once its context is done - and the handler ends then: a failed read
+	// is never retried (a "transient error" retry spins on the expired context for ever)
+	siblingRules(r, p, "C10", []string{"S1", "S2"}, "D8")
 	ro := DiscoverRoles(p)
 	T, cg := ro.T, ro.CG
 	r.Guard("D1", func() { ctxOpTemplateRules(r, p, T, func(x string) string { return x }, "") })
@@ -254,6 +257,48 @@ func runC17(r *Run, p *Prog) {
 		}
 		r.Stat("D4_io_calls", n)
 		r.Floor("D4", 3)
+	})
+	// ---- D7: an operation that fails (its context expired, the peer reset) leaves the connection open: the functions
+	// of package varlink that perform context-aware I/O on a connection wrapper never close it - closing is the
+	// caller's decision (Connection.Close, the end of the handler); "fail fast" closes make the connection unusable
+	// for the next call with a live context
+	r.Guard("D7", func() {
+		n := 0
+		for _, f := range p.FuncsOf(pkgVarlink) {
+			doesIO := false
+			for _, cs := range callsIn(f, false) {
+				if isProtoWrite(cs) || isProtoReadBytes(cs) || isProtoRead(cs) {
+					doesIO = true
+				}
+			}
+			if !doesIO {
+				continue
+			}
+			isLoop := false
+			for _, l := range ro.ConnLoop {
+				if l == f || origFn(l) == origFn(f) {
+					isLoop = true
+				}
+			}
+			if isLoop {
+				continue // the connection handler owns the accepted connection and closes it at its end (C10.S3)
+			}
+			n++
+			var bad ssa.Instruction
+			for _, cs := range callsIn(f, false) {
+				nm := calleeName(cs.Common)
+				if cs.Common.IsInvoke() && cs.Common.Method.Name() == "Close" || strings.HasSuffix(nm, "ctxio.Conn.Close") || nm == "varlink.Connection.Close" {
+					bad = cs.Instr
+				}
+			}
+			pos := f.Pos()
+			if bad != nil {
+				pos = bad.Pos()
+			}
+			r.Ob("D7", shortName(f), "the operation does not close the connection it was given", pos, bad == nil,
+				"an I/O operation closes the connection (on its error path): after a cancelled or expired call the same connection can no longer be used with a live context")
+		}
+		r.Floor("D7", 3)
 	})
 	// ---- D5
 	r.Guard("D5", func() {
